@@ -79,6 +79,8 @@ func c13Corpus() []*Program {
 		asg(V("y"), Bin("-", N("5"), N("2"))), Pr(V("y"), Bin("-", N("0"), N("2.5")), Meth(N("2.5"), "round"), Meth(N("7"), "floor"), un("-", Meth(N("2.5"), "floor")), Bin("+", Bin("*", N("3"), un("-", Meth(N("1.5"), "ceil"))), N("10")), Mem(Idx(Arr(N("0"), obj1("k", N("9"))), N("1")), "k")),
 		Pr(Bin("+", a, b), Bin("-", a, b), Bin("*", a, b), Bin("/", a, b), Bin("%", a, N("2")), Bin("==", a, b), Bin("!=", a, b), Bin("<", a, b), Bin("<=", a, b), Bin(">", a, b), Bin(">=", a, b)),
 		Pr(Bin("&&", a, b), Bin("||", N("0"), b), un("!", a), un("-", a), un("+", S("4")), Bin("~", S("abc"), &RegexLit{Pat: "b+"}), Bin("!~", S("abc"), S("^z")), &IsExpr{X: a, T: "number"}),
+		// a regex whose first character is '=' (its first two bytes spell the operator /=)
+		asg(V("re"), &RegexLit{Pat: "=+"}), Pr(Bin("~", S("a=b"), &RegexLit{Pat: "=b"}), Bin("!~", S("ab"), &RegexLit{Pat: "="}), Bin("~", S("=="), V("re")), Arr(&RegexLit{Pat: "=1"}, &RegexLit{Pat: "==2"})),
 		ES(&Assign{Op: "+=", L: a, R: N("1")}), ES(&Assign{Op: "-=", L: a, R: N("1")}), ES(&Assign{Op: "*=", L: a, R: N("2")}), ES(&Assign{Op: "/=", L: a, R: N("2")}),
 		ES(&IncDec{Op: "++", X: a}), ES(&IncDec{Op: "--", X: a}), asg(V("z"), &IncDec{Op: "++", Prefix: true, X: b}), asg(V("w"), &IncDec{Op: "--", Prefix: true, X: b}),
 		Pr(a, b, V("z"), V("w"), CallE(V("f"), a, N("1")), CallE(V("f"), N("0"), un("-", N("1"))), Idx(x, un("-", N("1"))), Idx(x, Bin("-", N("2"), N("1")))),
@@ -95,6 +97,7 @@ func c13Corpus() []*Program {
 		&Rule{Kind: "pattern", Pattern: Bin(">", Mem(V("$"), "n"), N("1")), Body: Blk(Pr(V("$index"), Mem(V("$"), "n"), Meth(Mem(V("$"), "s"), "upper")), &If{C: Bin("==", Mem(V("$"), "n"), N("3")), Then: &Next{}}, Pr(S("after")))},
 		&Rule{Kind: "pattern", Body: Blk(&If{C: Bin("==", V("$index"), N("3")), Then: &Exit{}})},
 		&Rule{Kind: "pattern", Pattern: Bin("~", Mem(V("$"), "s"), &RegexLit{Pat: "^a"})},
+		&Rule{Kind: "pattern", Pattern: Bin("~", Bin("+", Mem(V("$"), "s"), S("=")), &RegexLit{Pat: "=$"}), Body: Blk(Pr(S("eq")))},
 		&Rule{Kind: "ENDFILE", Body: Blk(Pr(S("ef")))},
 		&Rule{Kind: "END", Body: Blk(Pr(S("end")))},
 	}}
@@ -199,6 +202,15 @@ func c13Literals(c *Case) {
 		}
 		run("escape "+e, begin(Pr(S("pre")), Pr(S(e)), Pr(S("post"))), "")
 		run("skipped escape "+e, begin(&If{C: N("0"), Then: Blk(Pr(S(e)))}, Pr(S("post"))), "")
+	}
+	// quoted keys of object literals are string literals too
+	for _, k := range []string{"a\\tb", "x\\\\y", "line\\nbreak", "plain", "é\\té", "a\\qb", "tail\\", "\\0"} {
+		if strings.Contains(k, "'") {
+			continue
+		}
+		o := &ObjectLit{Keys: []string{k, "other"}, Quoted: []bool{true, false}, Vals: []Expr{N("1"), N("2")}}
+		run("quoted key "+k, begin(Pr(S("pre")), asg(V("o"), o), Pr(Idx(V("o"), S(k)), Meth(V("o"), "length")), &ForIn{V: "kk", It: V("o"), Body: Blk(Pr(V("kk"), Meth(V("kk"), "length")))}, Pr(jsonOf(V("o")))), "")
+		run("skipped quoted key "+k, begin(&If{C: N("0"), Then: Blk(asg(V("o"), o))}, Pr(S("post"))), "")
 	}
 	// numbers
 	for _, n := range []string{"0", "007", "1.50", "0.5", "10", "123456789012345678901234567890", "9007199254740993", "0.000001", "00.10", "3.14159265358979323846"} {
@@ -324,7 +336,7 @@ func c13Cases(tier string) int {
 func init() {
 	register(&Prop{
 		ID: "C13", Level: "exploration",
-		Rule:     "metamorphic: a generated program (structured programs and function programs, as token sequences) is run in the canonical layout (one space between tokens, one statement per line, single quotes) and in 6 (thorough 12) random layouts of the same tokens: between tokens nothing (where a table says they cannot fuse) / spaces / tabs / CR / comment+newline / newlines, except no newline after print/return, after a print-list comma or before ';'; statement-separating newlines replaced by ';' unless the statement ends in '}'; either quote style; in a quarter of the programs some of the optional commas (between object members, between match cases) are left out. stdout and outcome must be identical. Enumerated: every adjacent token pair of a two-program corpus using all operators and keywords written without a space, one gap at a time and all at once; literal slice vs the model: every byte 0x01-0xFF (control bytes, CR, LF included) and 9 sequences of line-end bytes inside a string literal in both quote styles, the three escapes (also next to non-ASCII characters in one literal) and 10 non-escapes (error only when evaluated), number spellings incl. 30 digits and leading zeros, 126 identifiers built from keywords. Non-trivial = layout differing from canonical in >= 3 gaps incl. a newline, comment or removed space; distinct by text.",
+		Rule:     "metamorphic: a generated program (structured programs and function programs, as token sequences) is run in the canonical layout (one space between tokens, one statement per line, single quotes) and in 6 (thorough 12) random layouts of the same tokens: between tokens nothing (where a table says they cannot fuse) / spaces / tabs / CR / comment+newline / newlines, except no newline after print/return, after a print-list comma or before ';'; statement-separating newlines replaced by ';' unless the statement ends in '}'; either quote style; in a quarter of the programs some of the optional commas (between object members, between match cases) are left out. stdout and outcome must be identical. Enumerated: every adjacent token pair of a two-program corpus using all operators and keywords written without a space, one gap at a time and all at once; literal slice vs the model: every byte 0x01-0xFF (control bytes, CR, LF included) and 9 sequences of line-end bytes inside a string literal in both quote styles, the three escapes (also next to non-ASCII characters in one literal) and 10 non-escapes (error only when evaluated), quoted object keys with escapes (processed like any string literal, bad ones an error when evaluated), number spellings incl. 30 digits and leading zeros, 126 identifiers built from keywords. Non-trivial = layout differing from canonical in >= 3 gaps incl. a newline, comment or removed space; distinct by text. The corpus holds regex literals whose first character is = (after ~, !~, =, [ and ,). 8 quoted object keys with escapes x {evaluated, skipped}: a quoted key is a string literal.",
 		NumCases: c13Cases,
 		Run: func(c *Case) {
 			switch c.Idx {
